@@ -111,6 +111,15 @@ pub enum TAct {
     DropStream(usize),
     /// Push the next item into pipe p's input from this thread
     Push(usize),
+    /// (C15) A scheduling attempt of the given kind on an object that has panicked: must fail loudly. Kinds: 0 desync, 1 sync,
+    /// 2 try_sync, 3 future_desync, 4 after, 5 future_sync + await
+    Attempt(u8, usize),
+    /// (C15) Await a future that was created before the object panicked: must fail loudly
+    AttemptJoin(OpId),
+    /// Hand a held future over to a later phase
+    Stash(OpId),
+    /// Block until the op has started running
+    WaitStart(OpId),
 }
 
 /// What the firer thread does, in sequence, with a small seeded pause before each
@@ -138,6 +147,21 @@ pub enum PoolMode {
     Warm,
     /// `set_max_threads`: spawn all threads up front
     Eager,
+}
+
+/// A later phase of a multi-phase scenario (C15, C17): started when the previous phase is complete
+#[derive(Clone, Debug, Default)]
+pub struct Phase {
+    pub name:           &'static str,
+    /// Change the pool maximum before the phase starts (at quiescence): (maximum, despawn first)
+    pub reconfig:       Option<usize>,
+    pub threads:        Vec<Vec<TAct>>,
+    /// Wait until every pool thread that ran a panicking body has exited
+    pub wait_pool_exit: bool,
+    /// Holds opened when the phase starts
+    pub open_first:     Vec<usize>,
+    /// Holds that must become occupied during this phase (they are opened once they all are, or once everything is quiet)
+    pub occupy:         Vec<usize>,
 }
 
 #[derive(Clone, Debug)]
@@ -182,13 +206,20 @@ pub struct Program {
     pub held_objs:  Vec<usize>,
     /// The panicking op, if any (C15)
     pub panics:     bool,
+    pub phases:     Vec<Phase>,
+    /// (hold phase) holds are opened group by group; after a group, wait until the given op has finished/panicked (or all is quiet)
+    pub hold_groups: Vec<(Vec<usize>, Option<OpId>)>,
+    /// (hold phase) caller threads that must have finished before any hold is opened (None: every thread that does not touch a held object)
+    pub hold_wait_threads: Option<Vec<usize>>,
+    /// (hold phase) operations whose call must have been invoked before any hold is opened
+    pub hold_wait_invoked: Vec<OpId>,
 }
 
 impl Program {
     pub fn new(run_seed: u64, profile: &'static str, template: &'static str) -> Program {
         Program {
             run_seed, profile, template, pool: 1, pool_mode: PoolMode::Warm, n_obj: 1, mortal: None, ops: vec![], threads: vec![], n_gates: 0,
-            n_holds: 0, fire: vec![], pusher: vec![], prefired: vec![], stale_wakes: false, pipes: vec![], hold_phase: false, held_objs: vec![], panics: false,
+            n_holds: 0, fire: vec![], pusher: vec![], prefired: vec![], stale_wakes: false, pipes: vec![], hold_phase: false, held_objs: vec![], panics: false, phases: vec![], hold_groups: vec![], hold_wait_threads: None, hold_wait_invoked: vec![],
         }
     }
 
@@ -220,6 +251,7 @@ impl Program {
         }
         for f in &self.fire { h = hcomb(h, fact_code(f)); }
         for f in &self.pusher { h = hcomb(h, 7 + fact_code(f)); }
+        for ph in &self.phases { h = hcomb(h, 0xfa5e + ph.reconfig.map(|m| m as u64 + 1).unwrap_or(0)); for t in &ph.threads { h = hcomb(h, 0xffff); for a in t { h = hcomb(h, tact_code(a)); } } }
         for p in &self.pipes { h = hcomb(h, (p.depth * 100 + p.items.len() * 4 + p.preloaded) as u64 + if p.through { 100000 } else { 0 }); }
         h
     }
@@ -254,6 +286,15 @@ impl Program {
         j.end_arr();
         j.key("firer").arr(); for f in &self.fire { j.string(&format!("{:?}", f)); } j.end_arr();
         j.key("pusher").arr(); for f in &self.pusher { j.string(&format!("{:?}", f)); } j.end_arr();
+        j.key("later_phases").arr();
+        for ph in &self.phases {
+            j.obj();
+            j.kv_str("name", ph.name);
+            if let Some(m) = ph.reconfig { j.kv_num("new_pool_max", m); }
+            j.key("threads").arr(); for t in &ph.threads { j.arr(); for a in t { j.string(&format!("{:?}", a)); } j.end_arr(); } j.end_arr();
+            j.end_obj();
+        }
+        j.end_arr();
         j.key("pipes").arr();
         for p in &self.pipes {
             j.obj();
@@ -270,7 +311,7 @@ fn tact_code(a: &TAct) -> u64 {
     match a {
         TAct::Op(o) => 10_000 + *o as u64, TAct::Join(o) => 20_000 + *o as u64, TAct::DropHeld(o) => 30_000 + *o as u64,
         TAct::Resume(o, b) => 40_000 + *o as u64 * 2 + *b as u64, TAct::HandResumer(o) => 50_000 + *o as u64, TAct::ReleaseMortal => 7,
-        TAct::PipeCreate(p) => 60_000 + *p as u64, TAct::Consume(p, n) => 70_000 + (*p as u64) * 100 + (*n as u64 % 97), TAct::DropStream(p) => 80_000 + *p as u64, TAct::Push(p) => 90_000 + *p as u64,
+        TAct::PipeCreate(p) => 60_000 + *p as u64, TAct::Consume(p, n) => 70_000 + (*p as u64) * 100 + (*n as u64 % 97), TAct::DropStream(p) => 80_000 + *p as u64, TAct::Push(p) => 90_000 + *p as u64, TAct::Attempt(k, o) => 95_000 + *k as u64 * 10 + *o as u64, TAct::AttemptJoin(o) => 96_000 + *o as u64, TAct::Stash(o) => 97_000 + *o as u64, TAct::WaitStart(o) => 98_000 + *o as u64,
     }
 }
 
